@@ -1158,6 +1158,8 @@ pub fn program_clauses_for_env<'db, I: Interner>(
     let mut closure = last_round.clone();
     let mut next_round = FxHashSet::default();
     while !last_round.is_empty() {
+        #[cfg(feature = "verif-hooks")]
+        crate::verif_hooks::tick();
         elaborate_env_clauses(
             db,
             &last_round.drain().collect::<Vec<_>>(),
